@@ -1,7 +1,8 @@
 import TempestVerif.Drv.Util
 import TempestVerif.Model.Boundary
+import TempestVerif.Model.BoundaryPy
 namespace Drv.C16
-open Drv Model.Boundary
+open Drv Model.Boundary Model.BoundaryPy
 
 /-- `bc per=<nats> refl=<nats> u=<scalars>`  →  `<scalars> <check before> <check after>` -/
 def bc (α : Type) [Sc α] [Codec α] (args : List (String × String)) : String :=
@@ -12,10 +13,78 @@ def bc (α : Type) [Sc α] [Codec α] (args : List (String × String)) : String 
     s!"{showList Codec.shw v} {showBool (checkBounds per refl u)} {showBool (checkBounds per refl v)}"
   | _, _, _ => "bad-op"
 
+/-! second pass: whole calls (`None` arguments, 1-D / 2-D dispatch, float32) and the call site -/
+
+def toHex8 (n : Nat) : String :=
+  let rec go (k : Nat) (n : Nat) (acc : List Char) : List Char :=
+    match k with
+    | 0 => acc
+    | k+1 => go k (n / 16) (hexChar (n % 16) :: acc)
+  String.ofList (go 8 n [])
+
+/-- binary32 values cross as 8 hex digits of their bit pattern -/
+instance : Codec Float32 :=
+  ⟨fun s => (parseHex? s).map fun n => Float32.ofBits n.toUInt32, fun x => toHex8 x.toBits.toNat⟩
+
+/-- `None` | `-` (empty) | `i,j,…` -/
+def parseOptIdx? (s : String) : Option (Option (List Nat)) :=
+  if s == "None" then some none else (parseNatList? s).map some
+
+/-- rows separated by `;`, `!` = no row at all -/
+def parseRows? {β : Type} (f : String → Option β) (s : String) : Option (List (List β)) :=
+  if s == "!" then some [] else (s.splitOn ";").mapM (parseList? f)
+
+def showRows {β : Type} (f : β → String) (rows : List (List β)) : String :=
+  if rows.isEmpty then "!" else ";".intercalate (rows.map (showList f))
+
+def showBits (bs : List Bool) : String := String.ofList (bs.map fun b => if b then '1' else '0')
+
+def showRes : Res → String
+  | .scalar b => "s" ++ showBool b
+  | .vec bs => "v" ++ showBits bs
+
+def showArr {β : Type} (f : β → String) : Arr β → String
+  | .d1 u => "1:" ++ showList f u
+  | .d2 n us => s!"2:{n}:" ++ showRows f us
+
+/-- `c16py per=<optidx> refl=<optidx> nd=<1|2> ncols=<n> u=<rows>` →
+    `<result array> <check_bounds(u)> <check_bounds(result)>` -/
+def py (α : Type) [Sc α] [Codec α] (args : List (String × String)) : String :=
+  match (getArg args "per").bind parseOptIdx?, (getArg args "refl").bind parseOptIdx?,
+        (getArg args "nd").bind String.toNat?, (getArg args "ncols").bind String.toNat?,
+        (getArg args "u").bind (parseRows? (Codec.parse (α := α))) with
+  | some per, some refl, some nd, some n, some rows =>
+    let a : Option (Arr α) :=
+      if nd == 1 then (match rows with | [u] => some (.d1 u) | _ => none) else some (.d2 n rows)
+    match a with
+    | some a =>
+      let v := applyPy per refl a
+      s!"{showArr Codec.shw v} {showRes (checkPy per refl a)} {showRes (checkPy per refl v)}"
+    | none => "bad-op"
+  | _, _, _, _, _ => "bad-op"
+
+/-- `c16site per=<optidx> refl=<optidx> ncols=<n> cur=<rows> raws=<rows>` → `<u_prime rows> <in_bounds bits>` | `none` -/
+def site (α : Type) [Sc α] [Codec α] (args : List (String × String)) : String :=
+  match (getArg args "per").bind parseOptIdx?, (getArg args "refl").bind parseOptIdx?,
+        (getArg args "ncols").bind String.toNat?,
+        (getArg args "cur").bind (parseRows? (Codec.parse (α := α))),
+        (getArg args "raws").bind (parseRows? (Codec.parse (α := α))) with
+  | some per, some refl, some n, some cur, some raws =>
+    match proposeAll per refl n cur raws with
+    | some (up, inb) => s!"{showRows Codec.shw up} {showBits inb}"
+    | none => "none"
+  | _, _, _, _, _ => "bad-op"
+
 def handle (cmd : String) (args : List (String × String)) : Option String :=
   match cmd with
   | "bc.F" => some (bc Float args)
   | "bc.Q" => some (bc Rat args)
+  | "bc.S" => some (bc Float32 args)
+  | "c16py.F" => some (py Float args)
+  | "c16py.Q" => some (py Rat args)
+  | "c16py.S" => some (py Float32 args)
+  | "c16site.F" => some (site Float args)
+  | "c16site.Q" => some (site Rat args)
   | _ => none
 
 end Drv.C16
